@@ -9,6 +9,7 @@ import (
 	"fmt"
 	"go/types"
 	"math"
+	"strconv"
 	"strings"
 
 	"golang.org/x/tools/go/ssa"
@@ -494,6 +495,38 @@ func strEqual(x, y Str) string {
 	}
 	if y.Len == "0" {
 		return sEq(x.Len, "0")
+	}
+	// two whole literals: decided by their text
+	if x.Off == "0" && y.Off == "0" {
+		if xs, ok := litContent.Load(x.Base); ok {
+			if ys, ok := litContent.Load(y.Base); ok && x.Len == strconv.Itoa(len(xs.(string))) && y.Len == strconv.Itoa(len(ys.(string))) {
+				if xs.(string) == ys.(string) {
+					return "true"
+				}
+				return "false"
+			}
+		}
+	}
+	// one whole literal (short): the other string equals it iff it has its length and its bytes
+	for k := 0; k < 2; k++ {
+		lit, other := x, y
+		if k == 1 {
+			lit, other = y, x
+		}
+		if lit.Off != "0" {
+			continue
+		}
+		if ls, ok := litContent.Load(lit.Base); ok {
+			text := ls.(string)
+			if lit.Len != strconv.Itoa(len(text)) || len(text) > 48 {
+				continue
+			}
+			cs := []string{"(= " + other.Len + " " + strconv.Itoa(len(text)) + ")"}
+			for i := 0; i < len(text); i++ {
+				cs = append(cs, "(= (select "+other.Base+" (+ "+other.Off+" "+strconv.Itoa(i)+")) "+strconv.Itoa(int(text[i]))+")")
+			}
+			return sAnd(cs...)
+		}
 	}
 	// Content equality of two differently represented strings is the
 	// uninterpreted predicate streq (made symmetric by ordering its arguments),
